@@ -46,8 +46,14 @@ TFail == /\ IsEvent("fail")
          /\ ObsOK(Ev)
 TPostBind == IsEvent("postBind") /\ PostBindStep(Ev.pod) /\ ObsOK(Ev)
 
+Cfg1(x) == [min |-> x.min, strict |-> x.strict, policy |-> x.policy, group |-> S(x.group)]
+TPgSet == IsEvent("pgSet") /\ PgSet(Ev.gang, Cfg1(Ev.cfg)) /\ ObsOK(Ev)
+
 CfgOf(c) == [g \in DOMAIN c |-> [min |-> c[g].min, strict |-> c[g].strict, policy |-> c[g].policy, group |-> S(c[g].group)]]
-TraceInit == \E i \in Starts : TraceStart(i) /\ InitWith(Trace[i].gangOf, CfgOf(Trace[i].cfg))
-TraceNext == TSet \/ TDelete \/ TPermit \/ TUnreserve \/ TFail \/ TPostBind \/ (SegDone /\ UNCHANGED vars)
+TraceInit == \E i \in Starts : /\ TraceStart(i)
+                               /\ Assert(DOMAIN Trace[i].cfg \subseteq Gangs /\ DOMAIN Trace[i].gangOf \subseteq Pods,
+                                         "Trace.cfg: Gangs / Pods do not cover the names used by the harness")
+                               /\ InitWith3(Trace[i].gangOf, CfgOf(Trace[i].cfg), Has(Trace[i], "crd") /\ Trace[i].crd)
+TraceNext == TSet \/ TDelete \/ TPermit \/ TUnreserve \/ TFail \/ TPostBind \/ TPgSet \/ (SegDone /\ UNCHANGED vars)
 TraceSpec == TraceInit /\ [][TraceNext]_<<vars, tvars>>
 =============================================================================
